@@ -27,6 +27,10 @@ pub struct Case {
     pub rows: usize,
     pub cols: usize,
     pub ops: Vec<Op>,
+    /// 1: 130 rows, 2: 130 columns; generated indices of that dimension are then drawn from
+    /// {0, 1, 2, 63, 64, 65, 66, 127, 128, 129} (indices that agree modulo 64)
+    #[serde(default)]
+    pub big: u8,
 }
 
 fn op_strategy() -> impl Strategy<Value = Op> {
@@ -47,8 +51,12 @@ fn op_strategy() -> impl Strategy<Value = Op> {
 
 pub fn strategy(tier: Tier) -> BoxedStrategy<Case> {
     let (maxdim, maxops) = tier.pick((8usize, 60usize), (16, 120));
-    (1..=maxdim, 1..=maxdim, proptest::collection::vec(op_strategy(), 0..=maxops))
-        .prop_map(|(rows, cols, ops)| Case { rows, cols, ops })
+    (1..=maxdim, 1..=maxdim, proptest::collection::vec(op_strategy(), 0..=maxops), prop_oneof![12 => Just(0u8), 1 => Just(1u8), 1 => Just(2u8)])
+        .prop_map(|(rows, cols, ops, big)| match big {
+            1 => Case { rows: 130, cols: cols.min(4), ops, big },
+            2 => Case { rows: rows.min(4), cols: 130, ops, big },
+            _ => Case { rows, cols, ops, big },
+        })
         .boxed()
 }
 
@@ -85,7 +93,7 @@ pub fn case_from_bytes(data: &[u8]) -> Case {
             break;
         }
     }
-    Case { rows, cols, ops }
+    Case { rows, cols, ops, big: 0 }
 }
 
 fn compare(h: &SparseMatrix, model: &BTreeSet<(usize, usize)>, rows: usize, cols: usize, step: usize) -> Check {
@@ -136,11 +144,16 @@ pub fn check(case: &Case, p: &mut Probe) -> Check {
     let mut deleted_rows: BTreeSet<usize> = BTreeSet::new();
     let mut deleted_cols: BTreeSet<usize> = BTreeSet::new();
     let mut nontrivial = false;
+    const ALIASED: [usize; 10] = [0, 1, 2, 63, 64, 65, 66, 127, 128, 129];
+    let big = case.big;
+    let ri = move |a: u16| -> usize { if big == 1 { ALIASED[idx(a, ALIASED.len())] } else { idx(a, rows) } };
+    let ci = move |a: u16| -> usize { if big == 2 { ALIASED[idx(a, ALIASED.len())] } else { idx(a, cols) } };
+    p.class_if(big != 0, "dimension-130-aliased-indices");
     let cell = |a: u16, b: u16, existing: bool, model: &BTreeSet<(usize, usize)>| -> (usize, usize) {
         if existing && !model.is_empty() {
             *model.iter().nth(idx(a, model.len())).unwrap()
         } else {
-            (idx(a, rows), idx(b, cols))
+            (ri(a), ci(b))
         }
     };
     for (i, op) in case.ops.iter().enumerate() {
@@ -187,8 +200,8 @@ pub fn check(case: &Case, p: &mut Probe) -> Check {
                 model.retain(|e| e.1 != c);
             }
             Op::SetRow { a, list } => {
-                let r = idx(*a, rows);
-                let l: Vec<usize> = list.iter().map(|&x| idx(x, cols)).collect();
+                let r = ri(*a);
+                let l: Vec<usize> = list.iter().map(|&x| ci(x)).collect();
                 h.set_row(r, l.iter());
                 model.retain(|e| e.0 != r);
                 for &c in &l {
@@ -196,8 +209,8 @@ pub fn check(case: &Case, p: &mut Probe) -> Check {
                 }
             }
             Op::SetCol { a, list } => {
-                let c = idx(*a, cols);
-                let l: Vec<usize> = list.iter().map(|&x| idx(x, rows)).collect();
+                let c = ci(*a);
+                let l: Vec<usize> = list.iter().map(|&x| ri(x)).collect();
                 h.set_col(c, l.iter());
                 model.retain(|e| e.1 != c);
                 for &r in &l {
@@ -205,16 +218,16 @@ pub fn check(case: &Case, p: &mut Probe) -> Check {
                 }
             }
             Op::InsertRow { a, list } => {
-                let r = idx(*a, rows);
-                let l: Vec<usize> = list.iter().map(|&x| idx(x, cols)).collect();
+                let r = ri(*a);
+                let l: Vec<usize> = list.iter().map(|&x| ci(x)).collect();
                 h.insert_row(r, l.iter());
                 for &c in &l {
                     model.insert((r, c));
                 }
             }
             Op::InsertCol { a, list } => {
-                let c = idx(*a, cols);
-                let l: Vec<usize> = list.iter().map(|&x| idx(x, rows)).collect();
+                let c = ci(*a);
+                let l: Vec<usize> = list.iter().map(|&x| ri(x)).collect();
                 h.insert_col(c, l.iter());
                 for &r in &l {
                     model.insert((r, c));
@@ -244,6 +257,36 @@ pub fn check(case: &Case, p: &mut Probe) -> Check {
     Ok(())
 }
 
+/// shapes with a zero dimension: dimensions are kept, every query of the non-empty dimension
+/// works and reports emptiness, the line operations are no-ops
+fn degenerate_shapes(_t: Tier) -> Vec<(usize, usize)> {
+    vec![(0, 0), (0, 1), (1, 0), (0, 5), (5, 0), (0, 70), (70, 0)]
+}
+
+fn check_degenerate(shape: &(usize, usize), p: &mut Probe) -> Check {
+    let (rows, cols) = *shape;
+    let mut h = guarded(|| SparseMatrix::new(rows, cols)).map_err(|e| Fail::new("panic", format!("SparseMatrix::new({rows}, {cols}) panicked: {e}")))?;
+    let model: BTreeSet<(usize, usize)> = BTreeSet::new();
+    guarded_check(|| compare(&h, &model, rows, cols, 0))?;
+    let res = guarded(|| {
+        for r in 0..rows {
+            h.clear_row(r);
+            h.set_row(r, std::iter::empty::<&usize>());
+            h.insert_row(r, std::iter::empty::<&usize>());
+        }
+        for c in 0..cols {
+            h.clear_col(c);
+            h.set_col(c, std::iter::empty::<&usize>());
+            h.insert_col(c, std::iter::empty::<&usize>());
+        }
+        h
+    });
+    let h = res.map_err(|e| Fail::new("panic", format!("a line operation on the empty {rows} x {cols} matrix panicked: {e}")))?;
+    guarded_check(|| compare(&h, &model, rows, cols, 1))?;
+    p.nontrivial();
+    Ok(())
+}
+
 /// fuzz-target body: byte tape -> operation history -> model comparison
 pub fn fuzz_bytes(data: &[u8]) -> Check {
     let case = case_from_bytes(data);
@@ -254,14 +297,23 @@ pub fn fuzz_bytes(data: &[u8]) -> Check {
 pub fn property() -> Property {
     Property {
         id: "C17",
-        subs: vec![Box::new(Sub {
+        subs: vec![
+            Box::new(EnumSub {
+                name: "degenerate-shapes",
+                rule: "shapes with a zero dimension (0x0, 0x1, 1x0, 0x5, 5x0, 0x70, 70x0): dimensions as requested, every row/column query of the other dimension reports emptiness, clear/set/bulk-insert with empty lists are no-ops",
+                cases: degenerate_shapes,
+                check: check_degenerate,
+                exhaustive: false,
+            }),
+            Box::new(Sub {
             name: "model",
-            rule: "histories of 0..=60 (thorough 120) operations {insert, remove, toggle, clear_row/col, set_row/col, insert_row/col} on shapes 1..=8 (16) squared, half of the cell operations aimed at entries currently present; after every step every query of the real matrix is compared with a BTreeSet model; non-trivial = a deletion that removed something followed by an insertion into the same row or column; distinct by digest of the whole history",
+            rule: "histories of 0..=60 (thorough 120) operations {insert, remove, toggle, clear_row/col, set_row/col, insert_row/col} on shapes 1..=8 (16) squared, one history in seven on a matrix with 130 rows (or columns) whose generated indices agree modulo 64 (0, 1, 2, 63..66, 127..129), half of the cell operations aimed at entries currently present; after every step every query of the real matrix is compared with a BTreeSet model; non-trivial = a deletion that removed something followed by an insertion into the same row or column; distinct by digest of the whole history",
             cases: |t| t.pick(300_000, 10_000_000),
             strategy,
             check,
             health: &[("delete-then-insert-same-line", 0.40)],
-        })],
+        }),
+        ],
         assumptions: vec![
             "indices are in range (out-of-range indexing panics by contract)".into(),
             "equality clause checked through PartialEq, which compares internal insertion order; only no-op operations are required to keep ==".into(),
